@@ -236,6 +236,10 @@ func ParseStatic(content []byte, opts ParseStaticOptions) (*Static, error) {
 				for _, service := range serviceIdToService {
 					result.Services = append(result.Services, service)
 				}
+				// Sort the services by ID so that the output is deterministic.
+				sort.Slice(result.Services, func(i, j int) bool {
+					return result.Services[i].Id < result.Services[j].Id
+				})
 			},
 			Optional: true,
 		},
